@@ -316,6 +316,58 @@ fn attributable(abandoned_fiber: bool, uaf: &[String], active: &[Finding]) -> Op
     None
 }
 
+/// The list of open captured variables of one activation.  Three locals, each never captured / captured
+/// only by a closure that has died / captured by a closure that is kept, the closures made in ascending or
+/// descending order of the variables, in a function, a fiber body or a top-level block; then garbage is
+/// made (collections), every variable is captured again, read through old and new closures, written, and
+/// read again.  A captured variable whose every closure is gone is still a variable of a live scope.
+fn open_upvalue_lists() -> Vec<String> {
+    let mut out = Vec::new();
+    for combo in 0..27usize {
+        let states = [combo % 3, combo / 3 % 3, combo / 9];
+        if states.iter().all(|s| *s == 0) {
+            continue;
+        }
+        for descending in [false, true] {
+            for context in 0..3 {
+                let mut body = String::new();
+                for i in 0..3 {
+                    body.push_str(&format!("  var v{} = [\"v{}\", [{}]];\n", i, i, i));
+                }
+                let order: Vec<usize> = if descending { vec![2, 1, 0] } else { vec![0, 1, 2] };
+                for &i in &order {
+                    match states[i] {
+                        1 => body.push_str(&format!("  {{ var dies = || v{}; print(dies()); }}\n", i)),
+                        2 => body.push_str(&format!("  var keep{} = || v{};\n", i, i)),
+                        _ => {}
+                    }
+                }
+                body.push_str("  var junk = [];\n  for k in 0..6 { junk.push([k, \"j${k}\"]); }\n  junk = nil;\n");
+                for i in 0..3 {
+                    body.push_str(&format!("  var again{} = || v{};\n  print(again{}());\n", i, i, i));
+                    if states[i] == 2 {
+                        body.push_str(&format!("  print(keep{}());\n", i));
+                    }
+                }
+                for i in 0..3 {
+                    body.push_str(&format!("  v{} = (\"new{}\", [{}, {}]);\n  print(again{}());\n", i, i, i, i, i));
+                    if states[i] == 2 {
+                        body.push_str(&format!("  print(keep{}());\n", i));
+                    }
+                    body.push_str(&format!("  print(v{});\n", i));
+                }
+                let src = match context {
+                    0 => format!("fn scope() {{\n{}  return again0;\n}}\nvar escaped = scope();\nprint(escaped());\n", body),
+                    1 => format!("var f = Fiber.new(|| {{\n{}  Fiber.yield(again1);\n  print(v0);\n  return again2;\n}});\nvar first = f.call();\nprint(first());\nvar second = f.call();\nprint(second());\nprint(first());\n", body),
+                    _ => format!("{{\n{}}}\nprint(\"end\");\n", body),
+                };
+                out.push(src);
+            }
+        }
+    }
+    out
+}
+
 pub fn run(ctx: &Ctx) -> Report {
     let mut report = Report::new();
     let active = active_findings(ctx, &mut report);
@@ -410,6 +462,7 @@ pub fn run(ctx: &Ctx) -> Report {
         let modules = crate::mcheck::module_sources(&c);
         corpus.push((print_program(&c.prog, false), modules));
     }
+    corpus.extend(open_upvalue_lists().into_iter().map(|s| (s, BTreeMap::new())));
     let n_corpus = corpus.len();
     let corpus_accs = par_map(&ctx.runner_checked, ctx.workers, corpus.into_iter(), |runner, _i, (src, modules)| {
         runner.timeout = std::time::Duration::from_secs(60);
@@ -467,7 +520,7 @@ pub fn run(ctx: &Ctx) -> Report {
     report.cov("traces_validated_against_impl", json!(acc.runs));
     report.cov("distinct_nontrivial", json!(n_shapes + n_corpus));
     report.cov("exhaustive", json!(true));
-    report.cov("rule", json!("programs: every heap-shape program root -> holder chain (length <= 2 over 29 holder kinds: vec/tuple element, map key, map value, field, captured variable, bound-method receiver, iterators, map adapter, suspended fiber local, method and static-method captures, error context, superclass link, open variable of an abandoned fiber, and six kinds of transient interpreter state - a return waiting for a finally block, an exception in flight through a finally block, a fiber call argument, a yielded and resumed value, an operand of an unfinished literal, an argument of an unfinished call - and six operations on temporaries: slice / index / collect of a temporary vec, slice of a temporary tuple, items / values of a temporary map) -> referent (20 kinds), the root being a global, a local, a closed variable, or - with one interpreter and two runs - a variable of a frame that an uncaught error discarded in the first run (the frame that threw, a frame or a fiber that was waiting for the fiber that threw), reached in the second run through an escaped closure; after construction every other reference is dropped, garbage of six kinds is allocated, the referent is reached through the chain and touched in every way its kind allows; plus the C05/C06/C07/C08/C18 generator corpora and the C14 (modules) and C17 (error paths through every call link) corpora with their module tables. schedules: never (comparison), always (collect at every allocation, swept objects quarantined and every later touch reported), only{i} for every allocation index of the small programs (all pairs in the thorough tier). oracle: no use-after-free event, no object swept while borrowed, output identical to the never-collect run."));
+    report.cov("rule", json!("programs: every heap-shape program root -> holder chain (length <= 2 over 29 holder kinds: vec/tuple element, map key, map value, field, captured variable, bound-method receiver, iterators, map adapter, suspended fiber local, method and static-method captures, error context, superclass link, open variable of an abandoned fiber, and six kinds of transient interpreter state - a return waiting for a finally block, an exception in flight through a finally block, a fiber call argument, a yielded and resumed value, an operand of an unfinished literal, an argument of an unfinished call - and six operations on temporaries: slice / index / collect of a temporary vec, slice of a temporary tuple, items / values of a temporary map) -> referent (20 kinds), the root being a global, a local, a closed variable, or - with one interpreter and two runs - a variable of a frame that an uncaught error discarded in the first run (the frame that threw, a frame or a fiber that was waiting for the fiber that threw), reached in the second run through an escaped closure; after construction every other reference is dropped, garbage of six kinds is allocated, the referent is reached through the chain and touched in every way its kind allows; plus the C05/C06/C07/C08/C18 generator corpora and the C14 (modules) and C17 (error paths through every call link) corpora with their module tables. plus the open-variable lists: three locals of one activation (function, fiber body, top-level block), each never captured / captured only by a closure that has died / captured by a kept closure, closures made in either order, then collections, every variable captured again, read and written through old and new closures (156 programs). schedules: never (comparison), always (collect at every allocation, swept objects quarantined and every later touch reported), only{i} for every allocation index of the small programs (all pairs in the thorough tier). oracle: no use-after-free event, no object swept while borrowed, output identical to the never-collect run."));
     report.cov("bounds", json!({"chain_length": 2, "outer_holders_of_chains_of_two": if thorough { "all 29" } else { "7 representatives" }, "only_i_for_program_allocations_up_to": 80, "pairs_for_program_allocations_up_to": if thorough { 40 } else { 0 }}));
     report.cov("heap_shape_programs", json!(n_shapes));
     report.cov("corpus_programs", json!(n_corpus));
